@@ -87,7 +87,12 @@ def classify(ix, msg):
         if kind == "provider set":
             return "unusedset:" + arg.strip('"').replace("Set", "")
         if kind == "provider":
-            name = arg.strip('"').split(".")[-1]
+            full = arg.strip('"')
+            name = full.split(".")[-1]
+            for it in u.items:     # provider functions may carry adversarial names
+                if it["kind"] == "func" and it.get("fn", "Prov%d" % it["id"]) == name and \
+                        full == "%s.%s" % (ix.prog.pkgmap[it["pkg"]]["name"], name):
+                    return "unusedprov:%d" % it["id"]
             if name.startswith("Prov"):
                 return "unusedprov:" + name[4:]
             for it in u.items:     # struct provider: named after the struct
